@@ -128,6 +128,11 @@ func extractNonStringParts(line string) []linePart {
 	currentPart := strings.Builder{}
 
 	for i, ch := range line {
+		// A line comment ends the code on this line: spacing inside it is not checked
+		if !inString && ch == '-' && strings.HasPrefix(line[i:], "--") {
+			break
+		}
+
 		if !inString && (ch == '\'' || ch == '"') {
 			// Save current non-string part
 			if currentPart.Len() > 0 {
@@ -211,7 +216,13 @@ func (r *RedundantWhitespaceRule) fixLine(line string) string {
 	stringChar := rune(0)
 	prevSpace := false
 
-	for _, ch := range trimmed {
+	for i, ch := range trimmed {
+		// A line comment ends the code on this line: its text is copied unchanged
+		if !inString && ch == '-' && strings.HasPrefix(trimmed[i:], "--") {
+			result.WriteString(trimmed[i:])
+			break
+		}
+
 		if !inString && (ch == '\'' || ch == '"') {
 			inString = true
 			stringChar = ch
